@@ -43,6 +43,10 @@ import (
 
 const retryMsg = "Exporting failed. Will retry the request after interval."
 
+// logged by the queue sender when the send of a dequeued request returned an error (used only to learn that
+// the retry sender's stop channel is closed: a probe request's one-hour wait was cut)
+const dropMsg = "Exporting failed. Dropping data."
+
 // ---------------------------------------------------------------------------------------------------
 // outcomes, scripts, configurations
 
@@ -131,6 +135,9 @@ type caseSpec struct {
 	FirstItems int      `json:"first_request_items,omitempty"`
 	MaxSize    int      `json:"batcher_max_size,omitempty"`
 	PartPlan   []string `json:"first_outcome_per_part,omitempty"`
+	// in-flight scenario: attempt in flight while Shutdown has stopped the retry sender, released with Release
+	Queue   string `json:"queue,omitempty"`         // memory | persistent
+	Release string `json:"released_with,omitempty"` // permanent | ok | transient
 }
 
 func (s caseSpec) stepAt(i int) step {
@@ -182,6 +189,7 @@ type handler struct {
 	wantIDs     []string
 	logs        []logRec
 	logCh       chan struct{}
+	dropCh      chan struct{} // the queue sender logged that a send returned an error
 	gateAt      int
 	gateEntered chan struct{}
 	gateRelease chan struct{}
@@ -207,7 +215,7 @@ type handler struct {
 }
 
 func newHandler(spec *caseSpec) *handler {
-	return &handler{spec: spec, logCh: make(chan struct{}, 256), gateAt: -1, gateEntered: make(chan struct{}), gateRelease: make(chan struct{}),
+	return &handler{spec: spec, logCh: make(chan struct{}, 256), dropCh: make(chan struct{}, 256), gateAt: -1, gateEntered: make(chan struct{}), gateRelease: make(chan struct{}),
 		reqCtx: context.Background(), cancel: func() {}, delivered: map[string]int{}}
 }
 
@@ -324,6 +332,14 @@ func (c *retryCore) Check(e zapcore.Entry, ce *zapcore.CheckedEntry) *zapcore.Ch
 }
 
 func (c *retryCore) Write(e zapcore.Entry, fields []zapcore.Field) error {
+	if strings.HasPrefix(e.Message, dropMsg) {
+		c.h.progress.Add(1)
+		select {
+		case c.h.dropCh <- struct{}{}:
+		default:
+		}
+		return nil
+	}
 	if e.Message != retryMsg {
 		return nil
 	}
@@ -360,15 +376,18 @@ type caseRes struct {
 	BuildErr    error
 	OrigIDs     []string
 	// queue scenario
-	Accepted    [][]string
-	StoredIDs   map[string]bool
-	StoreKeys   []string
-	Delivered2  map[string]int
-	Undelivered []string
-	Attempts1   int
-	Required    []string // ids that must survive the shutdown (nil: all accepted ids)
-	Finished1   []string // ids whose part ended with ok or a permanent error in the first incarnation
-	Parts       int
+	Accepted     [][]string
+	StoredIDs    map[string]bool
+	StoreKeys    []string
+	Delivered2   map[string]int
+	Undelivered  []string
+	Attempts1    int
+	AAttempts    int  // in-flight scenario: attempts made for the gated request
+	StopObserved bool // in-flight scenario: the probe request's wait was seen to be cut before the gate was released
+	Delivered1   map[string]int
+	Required     []string // ids that must survive the shutdown (nil: all accepted ids)
+	Finished1    []string // ids whose part ended with ok or a permanent error in the first incarnation
+	Parts        int
 }
 
 func (h *handler) snapshot(spec caseSpec) *caseRes {
@@ -768,11 +787,20 @@ func judge(c *driver.Ctx, r *caseRes) {
 		// last attempt: why did it stop here?
 		switch st.K {
 		case oOK:
+			if shutdown && r.ShutRetSeq != 0 {
+				c.Observe("verdict_of_attempt_in_flight_during_shutdown:ok", 1)
+			}
 			if r.Final != nil {
 				c.Violation("final-error", "the last attempt succeeded but the call returned "+r.Final.Error(), r.witness(""), "outcome", st.Kind, "problem", "error-after-success")
 			}
 		case oPermanent:
 			decisions++
+			if shutdown && r.ShutRetSeq != 0 {
+				c.Observe("verdict_of_attempt_in_flight_during_shutdown:permanent", 1)
+				if r.Final != nil && strings.Contains(r.Final.Error(), "shutdown") {
+					c.Observe("verdict_error_text_mentions_shutdown", 1)
+				}
+			}
 			if r.Final == nil {
 				c.Violation("final-error", "a permanent failure was reported as success", r.witness(""), "outcome", st.Kind, "problem", "nil")
 			} else if !consumererror.IsPermanent(r.Final) || !errors.Is(r.Final, errPermBase) {
@@ -1064,6 +1092,253 @@ func safeShutdown(comp component.Component) error {
 	return err
 }
 
+func runInflight(c *driver.Ctx, spec caseSpec) *caseRes {
+	k := kits[spec.sig]
+	persistent := spec.Queue == "persistent"
+	store := newMemStore()
+	var host component.Host = componenttest.NewNopHost()
+	qcfg := exporterhelper.NewDefaultQueueConfig()
+	qcfg.NumConsumers = 2
+	qcfg.QueueSize = 16
+	if persistent {
+		id := storeID
+		qcfg.StorageID = &id
+		host = storeHost{&storeExt{s: store}}
+	}
+	release := spec.stepAt(0)
+	h1 := newHandler(&spec)
+	aAttempts, bAttempts := 0, 0
+	h1.stepFn = func(_ int, ids []string) step {
+		if len(ids) > 0 && strings.HasPrefix(ids[0], "a.") {
+			aAttempts++
+			if aAttempts == 1 {
+				return release
+			}
+			return mkStep(oTransient)
+		}
+		bAttempts++
+		if bAttempts == 1 {
+			return step{K: oThrottle, Kind: oNames[oThrottle], Delay: time.Hour}
+		}
+		return mkStep(oTransient)
+	}
+	h1.gateAt = 0
+	h2 := newHandler(&spec)
+	h2.stepFn = func(int, []string) step { return mkStep(oOK) }
+	res := &caseRes{Spec: spec, StoredIDs: map[string]bool{}}
+	aIDs, bIDs := []string{"a.0", "a.1"}, []string{"b.0", "b.1"}
+	var berr error
+	var mu sync.Mutex
+	body := func() {
+		opts := append(spec.options(), exporterhelper.WithQueue(qcfg))
+		setErr := func(err error) { mu.Lock(); berr = err; mu.Unlock() }
+		in1, err := k.build(newSettings(h1), h1, opts)
+		if err != nil {
+			setErr(err)
+			return
+		}
+		if err := in1.comp.Start(context.Background(), host); err != nil {
+			setErr(err)
+			return
+		}
+		var accepted [][]string
+		if err := in1.consume(context.Background(), aIDs); err == nil {
+			accepted = append(accepted, aIDs)
+		}
+		<-h1.gateEntered // A's first attempt is in flight
+		if err := in1.consume(context.Background(), bIDs); err == nil {
+			accepted = append(accepted, bIDs)
+		}
+		<-h1.logCh // B's one-hour wait has started
+		sdDone := make(chan error, 1)
+		go func() { sdDone <- safeShutdown(in1.comp) }()
+		// Shutdown stops the retry sender first and then blocks in the queue until A's attempt returns. B's wait
+		// being cut (its send returns, the queue sender logs it) shows that the stop has happened.
+		stopObserved := false
+		select {
+		case <-h1.dropCh:
+			stopObserved = true
+		case <-time.After(3 * time.Second):
+		}
+		close(h1.gateRelease)
+		sdErr := <-sdDone
+		h1.progress.Add(1)
+		stored := map[string]bool{}
+		if persistent {
+			for _, v := range store.values() {
+				for _, id := range k.idsOfBytes(v) {
+					stored[id] = true
+				}
+			}
+		}
+		h1.mu.Lock()
+		na := aAttempts
+		d1 := map[string]int{}
+		for id, n := range h1.delivered {
+			d1[id] = n
+		}
+		h1.mu.Unlock()
+		var required []string
+		if persistent {
+			required = append(required, bIDs...)
+			if spec.Release == "transient" {
+				required = append(required, aIDs...)
+			}
+		}
+		mu.Lock()
+		res.Accepted, res.StoredIDs, res.StoreKeys, res.ShutErr = accepted, stored, store.keys(), sdErr
+		res.AAttempts, res.StopObserved, res.Delivered1, res.Required = na, stopObserved, d1, required
+		mu.Unlock()
+		if !persistent {
+			mu.Lock()
+			res.FinalSet = true
+			mu.Unlock()
+			return
+		}
+		in2, err := k.build(newSettings(h2), h2, opts)
+		if err != nil {
+			setErr(err)
+			return
+		}
+		if err := in2.comp.Start(context.Background(), host); err != nil {
+			setErr(err)
+			return
+		}
+		deadline := time.Now().Add(20 * time.Second)
+		for {
+			h2.mu.Lock()
+			missing := 0
+			for _, id := range required {
+				if h2.delivered[id] == 0 {
+					missing++
+				}
+			}
+			h2.mu.Unlock()
+			if missing == 0 || time.Now().After(deadline) {
+				break
+			}
+			time.Sleep(100 * time.Microsecond)
+		}
+		_ = in2.comp.Shutdown(context.Background())
+		h2.mu.Lock()
+		del := map[string]int{}
+		for id, n := range h2.delivered {
+			del[id] = n
+		}
+		h2.mu.Unlock()
+		mu.Lock()
+		res.Delivered2 = del
+		res.FinalSet = true
+		mu.Unlock()
+	}
+	var pv any
+	var pstack string
+	prog := func() int64 { return h1.progress.Load() + h2.progress.Load() + store.ops.Load() }
+	stuck := c.Guard(40*time.Second, prog, func() { pv, pstack = driver.Catch(body) })
+	mu.Lock()
+	out := *res
+	out.BuildErr = berr
+	mu.Unlock()
+	out.Stuck = stuck
+	if pv != nil {
+		out.Panic, out.PanicSite = fmt.Sprint(pv), driver.PanicSite(pstack)
+	}
+	s1 := h1.snapshot(spec)
+	out.Attempts, out.Logs = s1.Attempts, s1.Logs
+	return &out
+}
+
+func judgeInflight(c *driver.Ctx, r *caseRes) {
+	spec := r.Spec
+	c.Eval()
+	wit := func() any {
+		keys := append([]string(nil), r.StoreKeys...)
+		sort.Strings(keys)
+		var stored []string
+		for id := range r.StoredIDs {
+			stored = append(stored, id)
+		}
+		sort.Strings(stored)
+		return map[string]any{"case": spec, "accepted": r.Accepted, "attempts_for_the_in_flight_request": r.AAttempts, "retry_stop_observed_before_release": r.StopObserved,
+			"delivered_by_first_incarnation": r.Delivered1, "storage_keys_after_shutdown": keys, "request_ids_in_storage_after_shutdown": stored,
+			"delivered_by_second_incarnation": r.Delivered2, "attempts_first_incarnation": r.Attempts, "retry_log_lines": r.Logs}
+	}
+	if r.BuildErr != nil {
+		c.Violation("create", "creating or starting the exporter failed: "+r.BuildErr.Error(), wit(), "signal", spec.Signal)
+		return
+	}
+	if r.Panic != "" {
+		c.Violation("panic", "panic in the exporter: "+r.Panic, wit(), "site", r.PanicSite)
+		return
+	}
+	if r.Stuck != nil || len(r.Accepted) < 2 || !r.FinalSet {
+		if r.Stuck != nil && strings.Contains(strings.Join(r.Stuck.RepoFrames, " "), "retrySender") {
+			c.Violation("shutdown-stuck", "Shutdown of an exporter with a queue does not return while a request waits for its retry", map[string]any{"case": spec, "frames": r.Stuck.RepoFrames}, "point", "queue/"+spec.Point, "delay", "-")
+		} else {
+			c.Inconclusive("inflight-case-did-not-finish")
+		}
+		return
+	}
+	c.Observe("inflight_cases:"+spec.Queue+"/"+spec.Release, 1)
+	if r.ShutErr != nil {
+		c.Violation("shutdown-error", "Shutdown returned an error: "+r.ShutErr.Error(), wit(), "point", "queue/"+spec.Point)
+	}
+	if !r.StopObserved {
+		c.Inconclusive("retry-stop-not-observed-before-release")
+	}
+	verdict := spec.Release != "transient"
+	// no further attempt: always after a verdict; after a transient failure when the stop was known to precede it
+	if r.AAttempts != 1 && (verdict || r.StopObserved) {
+		sub, what := "attempt-after-verdict", fmt.Sprintf("the attempt in flight during Shutdown ended with the verdict %q and %d further attempts were made", spec.Release, r.AAttempts-1)
+		if !verdict {
+			sub, what = "retry-after-shutdown", fmt.Sprintf("the attempt in flight failed after the retry sender had been stopped and %d further attempts were made", r.AAttempts-1)
+			c.Violation(sub, what, wit(), "delay", delayClass(spec.Cfg.Initial), "point", "queue/"+spec.Point)
+		} else {
+			c.Violation(sub, what, wit(), "outcome", spec.Release)
+		}
+	}
+	if spec.Release == "ok" && (r.Delivered1["a.0"] != 1 || r.Delivered1["a.1"] != 1) {
+		c.Violation("final-error", "the in-flight attempt succeeded but its items are not recorded as delivered exactly once", wit(), "outcome", "ok", "problem", "delivery-count")
+	}
+	if spec.Queue != "persistent" {
+		c.Nontrivial("inflight", spec.Signal, spec.Queue, spec.Release, spec.Cfg.Class)
+		return
+	}
+	aStored := r.StoredIDs["a.0"] || r.StoredIDs["a.1"]
+	aAgain := r.Delivered2["a.0"] > 0 || r.Delivered2["a.1"] > 0
+	if verdict {
+		// a verdict is final and is not shutdown-classified: the request leaves the queue for good
+		if aStored || aAgain {
+			c.Violation("verdict-not-final", fmt.Sprintf("the attempt in flight during Shutdown ended with the verdict %q, yet the request is still in the persistent queue's storage after Shutdown returned (stored=%v) or was delivered again by the second incarnation (redelivered=%v): a verdict must not be classified as a shutdown interruption", spec.Release, aStored, aAgain),
+				wit(), "outcome", spec.Release, "signal", spec.Signal)
+		} else {
+			c.Observe("inflight_verdicts_final", 1)
+		}
+	}
+	lost := 0
+	for _, id := range r.Required {
+		if !r.StoredIDs[id] {
+			lost++
+		}
+	}
+	if lost > 0 {
+		c.Violation("shutdown-classification", fmt.Sprintf("%d accepted items whose export was interrupted by Shutdown are no longer in the persistent queue's storage after Shutdown returned: the interruption was not classified as shutdown, the request is lost", lost), wit(), "signal", spec.Signal, "point", "queue/"+spec.Point+"/"+spec.Release)
+	} else {
+		missing := 0
+		for _, id := range r.Required {
+			if r.Delivered2[id] == 0 {
+				missing++
+			}
+		}
+		if missing > 0 {
+			c.Inconclusive("kept-request-not-redelivered-within-20s")
+		} else {
+			c.Observe("inflight_interrupted_requests_kept_and_redelivered", int64(len(r.Required)/2))
+		}
+	}
+	c.Nontrivial("inflight", spec.Signal, spec.Queue, spec.Release, spec.Cfg.Class)
+}
+
 func judgeQueue(c *driver.Ctx, r *caseRes) {
 	spec := r.Spec
 	c.Eval()
@@ -1265,12 +1540,35 @@ func shutdownCase(rng *rand.Rand, g int64) caseSpec {
 	if long || (spec.Point == "during-wait" && spec.Cfg.Initial < time.Second && rng.Intn(3) > 0) {
 		at = step{K: oThrottle, Kind: oNames[oThrottle], Delay: time.Hour}
 	}
+	if spec.Point == "during-attempt" {
+		// the attempt in flight while Shutdown stops the retry sender may also end with a verdict
+		switch (g / 36) % 4 {
+		case 1:
+			at = mkStep(oPermanent)
+		case 2:
+			at = mkStep(oOK)
+		}
+	}
 	sc = append(sc, at)
 	for i := 0; i < 6; i++ {
 		sc = append(sc, mkStep(oTransient))
 	}
 	sc = append(sc, mkStep(oOK))
 	spec.Script = sc
+	return spec
+}
+
+// inflightCase: behind a memory or persistent queue (2 consumers) request A's first attempt is held in the
+// export function, a probe request B sits in a one-hour retry wait; Shutdown is called, the harness learns
+// from B's cut wait that the retry sender is stopped, then A's attempt is released with a permanent error, with
+// success or with a transient error.
+func inflightCase(g int64) caseSpec {
+	spec := caseSpec{Type: "inflight", NItems: 2, Point: "attempt-in-flight", Consumers: 2, NReq: 2}
+	spec.sig = int(g % int64(len(kits)))
+	spec.Release = []string{"permanent", "ok", "transient"}[(g/4)%3]
+	spec.Queue = []string{"persistent", "memory"}[(g/12)%2]
+	spec.Cfg = shutdownIntervals[(g/24)%int64(len(shutdownIntervals))]
+	spec.Script = []step{mkStep(map[string]okind{"permanent": oPermanent, "ok": oOK, "transient": oTransient}[spec.Release])}
 	return spec
 }
 
@@ -1391,9 +1689,12 @@ func (rn *runner) flush() {
 			defer func() { <-sem }()
 			sp := jobs[i].spec
 			sp.Signal = kits[sp.sig].name
-			if sp.Type == "queue" {
+			switch sp.Type {
+			case "queue":
 				res[i] = runQueue(c, sp)
-			} else {
+			case "inflight":
+				res[i] = runInflight(c, sp)
+			default:
 				res[i] = runDirect(c, sp)
 			}
 		}(i)
@@ -1402,9 +1703,12 @@ func (rn *runner) flush() {
 	for i := range jobs {
 		c.Want(jobs[i].idx)
 		r := res[i]
-		if r.Spec.Type == "queue" {
+		switch r.Spec.Type {
+		case "queue":
 			judgeQueue(c, r)
-		} else {
+		case "inflight":
+			judgeInflight(c, r)
+		default:
 			judge(c, r)
 		}
 		rn.seen++
@@ -1522,6 +1826,19 @@ func run(c *driver.Ctx) {
 		}
 		rn.emit(job{g, queueSplitCase(c.CaseRand(g), k)})
 	}
+	// 6. an attempt in flight while Shutdown has stopped the retry sender, released with a verdict or a transient error
+	nInflight := int64(c.N(288, 6000))
+	if race {
+		nInflight = int64(c.N(144, 3000))
+	}
+	for k := int64(0); k < nInflight; k++ {
+		g := next
+		next++
+		if !c.Mine(g) {
+			continue
+		}
+		rn.emit(job{g, inflightCase(k)})
+	}
 	rn.flush()
 }
 
@@ -1530,7 +1847,7 @@ func main() {
 		ID:    "C05",
 		Level: "exploration",
 		Rule: "a sweep case is one (outcome script, back-off configuration class, signal): every script consisting of a prefix of non-terminal outcomes {transient, throttle(d), partial(remaining subset), attempt-timeout} of length <= 5 (quick) / 7 (thorough) followed by a verdict {ok, permanent, request-deadline expiry, cancellation} is enumerated, each under 5 (quick) / all 15 (thorough) configuration classes (randomization 0 / 0.3 / 0.5 / 1, multiplier 1-3, intervals 0, 1 ns, 50 us, 1-2 ms, budgets and deadlines none / 9-12 ms / 1 h, retry disabled), plus random scripts of 6-9 failures incl. throttle+partial; " +
-			"shutdown cases: Shutdown before the call, while attempt k is in flight (gate in the export function) or after the retry sender logged that wait k started, with waits of 0, 1 ns, 10 s and one hour; queue cases: the same behind a persistent queue on an in-memory storage extension, followed by a second incarnation, also with the queued request split by the legacy batcher (max_size) into 2-3 exports whose outcomes {interrupted by the shutdown inside / right at its retry wait, ok, permanent} are aggregated before the queue classifies them (8 outcome patterns); " +
+			"shutdown cases: Shutdown before the call, while attempt k is in flight (gate in the export function) or after the retry sender logged that wait k started, with waits of 0, 1 ns, 10 s and one hour; queue cases: the same behind a persistent queue on an in-memory storage extension, followed by a second incarnation, also with the queued request split by the legacy batcher (max_size) into 2-3 exports whose outcomes {interrupted by the shutdown inside / right at its retry wait, ok, permanent} are aggregated before the queue classifies them (8 outcome patterns); in-flight cases: an attempt held in the export function while Shutdown has stopped the retry sender (no queue; memory / persistent queue with a probe request whose cut wait shows the stop) is released with permanent / ok / transient - a verdict is final (no further attempt, gone from storage, not delivered again), only the transient failure is kept; " +
 			"non-trivial = at least one retry decision (retry or give up after a failed attempt) was taken; distinct = distinct (script, configuration class [, shutdown point])",
 		Assumptions: []string{
 			"configurations are accepted by BackOffConfig.Validate, with multiplier >= 1 and initial_interval <= max_interval (for other values the envelope of the statement is not defined)",
